@@ -1,7 +1,7 @@
 SPECIFICATION Spec
 CONSTANTS Kinds = {"plain", "mixed", "enc", "root"}
           MixedServerSet = {"none", "rel", "relslash", "relroot", "abs", "absvar", "two", "psfirst", "pslast", "relpfx", "abspfx"}
-          MixedCoreServers = {"none", "rel"}
+          MixedCoreServers = {"none", "rel", "relslash", "relroot", "abs", "absvar", "two", "psfirst", "pslast", "relpfx", "abspfx"}
           MixedMethKeys = {"G", "P", "GP"}
           PlainMethKeys = {"G", "P", "GP"}
           MaxLen = 2
@@ -9,8 +9,8 @@ CONSTANTS Kinds = {"plain", "mixed", "enc", "root"}
           ServerSet = {"none", "rel", "relslash", "relroot", "abs", "absvar", "two", "psfirst", "pslast", "relpfx", "abspfx"}
           CoreLen = 2
           CoreT = 2
-          CoreServers = {"none", "rel"}
-          Slice = 4
+          CoreServers = {"none", "rel", "relslash", "relroot", "abs", "absvar", "two", "psfirst", "pslast", "relpfx", "abspfx"}
+          Slice = 0
           Seed = 1
           DesignAll = TRUE
 INVARIANTS DesignOK Emit
